@@ -7,8 +7,10 @@
            `Storage::stores_as_values` (src/vm/mod.rs, src/vm/state/*.rs): which values of a retired state are handed to
            the type checker, in which order, storage generations wrapped as `StorageWrite {key, value}`;
          - `.unique()` in `TypeChecker::lift` (first occurrence wins);
-         - the loops of `lift` (errors are collected, the loop goes on), `assign_vars`, `infer` with their
-           watchdog polls (the answer stream of VM.v is shared by all stages);
+         - the watchdog in EVERY stage (the answer stream of VM.v is shared by all stages): the loops of `lift` (errors
+           are collected, the loop goes on), `assign_vars`, `infer`, every round of `unification::unify` (a thin wrapper
+           around Unify.v's `classes_loop`; poll at the top of each class iteration, the counter running on across
+           rounds) and the layout loop of `TypeChecker::unify`, each an instance of PolledLoop.v's scheme (`ploop_e`);
          - `Register.tcs` -> `Unify.tstate`, and the forest `unify` leaves behind -> `Abi.abi_env`;
      * the iteration orders the hook `verif::order` imposes at the call sites outside `unify` (`unify`'s own are
        `Unify.orders_sorted` / `orders_sorted_rev` / `orders_seeded`), in the three modes that determine an order
@@ -29,7 +31,7 @@
 From Coq Require Import String Ascii HexadecimalString.
 From SLX Require Import Base Word256 PackingArith gen.Constants gen.ValueSig gen.OpcodeTable gen.PassOrder gen.RulesSig
   SymVal Micro gen.OpcodeSem Disasm VM Fold PassesSlots PassesPacking TypeExpr Merge VectorMap DisjointSet Register Rules
-  Unify AbiT Layout Abi.
+  Unify AbiT Layout Abi PolledLoop.
 Open Scope string_scope.
 Open Scope list_scope.
 Open Scope N_scope.
@@ -218,16 +220,15 @@ Inductive pipeline_result :=
 | PErrDisasm (e : dis_err)                    (* InstructionStream::try_from failed *)
 | PErrVm (errs : list (N * exec_err))         (* VM::execute returned its error container (location, kind) *)
 | PErrLift                                    (* a lifting pass returned Err *)
-| PErrStopped (stage : N)                     (* Error::StoppedByWatchdog in lift (1) / assign_vars (2) / infer (3) *)
+| PErrStopped (stage : N)                     (* Error::StoppedByWatchdog in lift (1) / assign_vars (2) / infer (3) /
+                                                 unification::unify (4) / the layout loop of TypeChecker::unify (5) *)
 | PErrInfer                                   (* an inference rule returned Err *)
 | PErrAbi (e : abi_err)                       (* type_of / abi_type_for failed *)
 | PPanic (site : N)
 | PFuelVm                                     (* out of fuel: the VM loop *)
 | PFuelUnify                                  (* out of fuel: the rounds of `unify` (class K2 never halts) *)
 | PFuelFind                                   (* out of fuel: union-find `find` (excluded by C19) *)
-| PModelBug                                   (* `merge` returned the Err it does not have *)
-| PWatchdogBeyondModel.                       (* a watchdog that says stop later than `infer`: the polls inside
-                                                 `unify` and the layout loop are not counted by this model *)
+| PModelBug.                                  (* `merge` returned the Err it does not have *)
 
 Definition SITE_POLL_ZERO : N := 9300.        (* `counter % poll_every()` with poll_every() = 0 (VM::execute) *)
 
@@ -241,43 +242,67 @@ Record ptrace := mk_ptrace {
   t_lifted : option (list sv);                        (* after the nine passes *)
   t_vars : option N;                                  (* tyvar_count after assign_vars *)
   t_infs : option (N * list (tyvar * list te));       (* tyvar_count and inference sets after infer *)
+  t_polls : N;                                        (* watchdog polls made by the whole run *)
   t_result : pipeline_result }.
 
-(* ------------------------------------------------------------------------------------------------ watchdog polls *)
-(* `if counter % polling_interval == 0 && self.watchdog.should_stop()`: (stop?, polls made so far) *)
-Definition poll_now (cfg : limits) (counter polls : N) : bool * N :=
-  if counter mod poll_every cfg =? 0
-  then (match stop_at cfg with Some k => k <=? polls | None => false end, polls + 1)
-  else (false, polls).
+(* ------------------------------------------------------------------------------------------------ polled loops *)
+(* The loops of the type-checker stages follow the scheme of PolledLoop.v (`ploop`): poll when the counter is a
+   multiple of the interval, bump the counter on every iteration, run the body.  `ploop_e` is that scheme with the
+   body's failure kept (`ploop` forgets it: proofs/PipelineProofs.v `ploop_e_forget`); `fold_e` is the unmonitored loop. *)
+Inductive pres (St E : Type) := PDone (s : St) (c : N) (w : wdog) | PStopped (w : wdog) | PFailed (e : E) (w : wdog).
+Arguments PDone {St E}. Arguments PStopped {St E}. Arguments PFailed {St E}.
 
-(* a polled loop over n items that does nothing else: None = stopped at item `i`, Some = the polls afterwards *)
-Fixpoint polled (cfg : limits) (n : nat) (counter polls : N) : nat + N :=
-  match n with
-  | O => inr polls
-  | S n' => let '(stop, polls') := poll_now cfg counter polls in
-            if stop then inl (N.to_nat counter) else polled cfg n' (counter + 1) polls'
-  end.
+Section LoopE.
+  Context {A St E : Type}.
+  Variable body : A -> St -> St + E.
+  Variable interval : N.
+
+  Fixpoint ploop_e (items : list A) (c : N) (w : wdog) (s : St) : pres St E :=
+    match items with
+    | [] => PDone s c w
+    | x :: r =>
+        let '(stop, w1) := if c mod interval =? 0 then should_stop w else (false, w) in
+        if stop then PStopped w1
+        else match body x s with
+             | inl s1 => ploop_e r (c + 1) w1 s1
+             | inr e => PFailed e w1
+             end
+    end.
+
+  Fixpoint fold_e (items : list A) (s : St) : St + E :=
+    match items with
+    | [] => inl s
+    | x :: r => match body x s with inl s1 => fold_e r s1 | inr e => inr e end
+    end.
+End LoopE.
+
+Definition forget {St E} (r : pres St E) : lres St :=
+  match r with PDone s c w => LDone s c w | PStopped w => LStopped w | PFailed _ w => LFailed w end.
+Definition forget_body {A St E} (body : A -> St -> St + E) : A -> St -> option St :=
+  fun x s => match body x s with inl s1 => Some s1 | inr _ => None end.
+Definition pres_wdog {St E} (r : pres St E) : wdog :=
+  match r with PDone _ _ w | PStopped w | PFailed _ w => w end.
 
 (* ------------------------------------------------------------------------------------------------ disassembly + VM *)
-Definition no_trace (r : pipeline_result) : ptrace := mk_ptrace true None None None None r.
+Definition no_trace (polls : N) (r : pipeline_result) : ptrace := mk_ptrace true None None None None polls r.
 
 (* the part of the analysis that needs neither keccak nor the slot table: the retired states and the number of
-   watchdog polls made so far, or the result when the analysis ends here *)
-Inductive vm_phase := VmFail (r : pipeline_result) | VmOk (stored : list (vstate * list (N * N))) (polls : N).
+   watchdog polls made so far, or the result (and the polls made) when the analysis ends here *)
+Inductive vm_phase := VmFail (r : pipeline_result) (polls : N) | VmOk (stored : list (vstate * list (N * N))) (polls : N).
 
 Definition vm_phase_of (fu : fuels) (bytes : list byte) (cfg : config) : vm_phase :=
   match try_from bytes with
-  | Err e => VmFail (PErrDisasm e)
-  | Panic s => VmFail (PPanic s)
+  | Err e => VmFail (PErrDisasm e) 0
+  | Panic s => VmFail (PPanic s) 0
   | Ok code =>
-      if poll_every cfg =? 0 then VmFail (PPanic SITE_POLL_ZERO)
+      if poll_every cfg =? 0 then VmFail (PPanic SITE_POLL_ZERO) 0
       else
         match run_p constant_fold (f_vm fu) (init_vm code cfg) with
-        | ROutOfFuel _ => VmFail PFuelVm
-        | RStopped ip _ => VmFail (PErrVm [(ip, EStoppedByWatchdog)])
+        | ROutOfFuel m => VmFail PFuelVm (v_polls m)
+        | RStopped ip m => VmFail (PErrVm [(ip, EStoppedByWatchdog)]) (v_polls m)
         | RDone m =>
             match v_errors m with
-            | _ :: _ => VmFail (PErrVm (v_errors m))
+            | _ :: _ => VmFail (PErrVm (v_errors m)) (v_polls m)
             | [] => VmOk (v_stored m) (v_polls m)
             end
         end
@@ -307,21 +332,17 @@ Section Analyze.
     fold_left (fun acc p => obind acc (pass9 p)) order (Ok v).
   Definition lift_value : sv -> outcome sv unit := run_passes9 default_pass_order.
 
-  Inductive lift_out := LOk (vs : list sv) (polls : N) | LStop | LErr | LPanic (site : N).
-
-  (* the loop of TypeChecker::lift: poll, run the passes, collect errors and go on *)
-  Fixpoint lift_loop (cfg : limits) (vals : list sv) (counter polls : N) (acc : list sv) (failed : bool) : lift_out :=
-    match vals with
-    | [] => if failed then LErr else LOk (rev acc) polls
-    | v :: r =>
-        let '(stop, polls') := poll_now cfg counter polls in
-        if stop then LStop
-        else match lift_value v with
-             | Ok v' => lift_loop cfg r (counter + 1) polls' (v' :: acc) failed
-             | Err _ => lift_loop cfg r (counter + 1) polls' acc true
-             | Panic s => LPanic s
-             end
+  (* the body of the loop of TypeChecker::lift: run the passes; an Err is collected and the loop goes on.
+     State: the lifted values so far (newest first) and whether a pass failed *)
+  Definition lift_body (v : sv) (st : list sv * bool) : (list sv * bool) + pipeline_result :=
+    match lift_value v with
+    | Ok v' => inl (v' :: fst st, snd st)
+    | Err _ => inl (fst st, true)
+    | Panic s => inr (PPanic s)
     end.
+
+  (* ---------------------------------------------------------------------------------------------- assign_vars *)
+  Definition reg_body (v : sv) (st : tcs) : tcs + pipeline_result := inl (snd (reg v st)).
 
   (* ---------------------------------------------------------------------------------------------- rules *)
   (* the order of `tc.rules` under the hook: by the Debug text of the rule = the name of its unit struct *)
@@ -331,64 +352,152 @@ Section Analyze.
   (* `state.values()` under the hook: by type variable, i.e. in creation order (`Register.values`), then arranged *)
   Definition tc_values (vals : list tsv) : list tsv := arrange mode "tc.values" vals.
 
+  Definition infer_body (x : tsv) (st : tcs) : tcs + pipeline_result :=
+    match infer_value pipeline_rules x st with
+    | Ok st' => inl st'
+    | Err _ => inr PErrInfer
+    | Panic s => inr (PPanic s)
+    end.
+
   (* the expressions `merge` allocated during unification (`allocate_ty_var`): synthetic values, one per variable *)
   Definition synthetic_values (from to : N) : list tsv :=
     map (fun k => let v := from + N.of_nat k in TN v T_Value [two64 + v] []) (seq 0 (N.to_nat (to - from))).
 
-  (* ---------------------------------------------------------------------------------------------- unify -> abi *)
+  (* ---------------------------------------------------------------------------------------------- unify *)
   Definition tstate_of (st : tcs) : tstate := mk_tstate (infs st) (next st).
 
+  Definition ures_res {X} (r : ures X) : X + pipeline_result :=
+    match r with
+    | Ok a => inl a
+    | Err URounds => inr PFuelUnify
+    | Err UFindFuel => inr PFuelFind
+    | Err UImpossible => inr PModelBug
+    | Panic s => inr (PPanic s)
+    end.
+
+  (* `unification::unify` with its watchdog (src/tc/unification.rs): in every round
+       for (ty_var, inferences) in forest.sets() { poll; counter += 1; if inferences.is_empty() { continue }; .. }
+     i.e. the polled-loop scheme over ALL classes (the empty ones included), the counter running on across rounds.
+     The body of one class and the rest of the round are Unify.v's own `classes_loop` (on a one-element list) and the
+     three loops `insert_all`, `union_all`, `add_all` (proofs: `unify_rounds_never_stop` = `Unify.unify`). *)
+  Definition class_body (rnd : nat) (p : tyvar * iset) (st : dsu iset * racc) : (dsu iset * racc) + pipeline_result :=
+    ures_res (classes_loop ds_forest (orders_of mode) rnd (fst st) [p] (snd st)).
+
+  (* what `round` does after the loop over the classes *)
+  Definition round_tail (rnd : nat) (sa : dsu iset * racc) : ures (dsu iset) :=
+    let o := orders_of mode in
+    let acc := snd sa in
+    do s2 <- insert_all ds_forest (fst sa) (o_newv o rnd (dedup N.eqb (r_newv acc)));
+    do s3 <- union_all ds_forest s2 (o_eqs o rnd (dedup Unify.pair_eqb (r_eqs acc)));
+    add_all ds_forest s3 (o_judg o rnd (dedup judg_eqb (r_judg acc))).
+
+  Inductive unify_out :=
+  | UStop (w : wdog)
+  | UFail (r : pipeline_result) (w : wdog)
+  | UDone (s : dsu iset) (nxt c : N) (w : wdog).
+
+  Fixpoint unify_rounds (interval : N) (fuel rnd : nat) (s : dsu iset) (nxt c : N) (w : wdog) : unify_out :=
+    match fuel with
+    | O => UFail PFuelUnify w
+    | S f =>
+        match ures_res (f_sets ds_forest s) with
+        | inr e => UFail e w
+        | inl sl =>
+            match ploop_e (class_body rnd) interval (snd sl) c w (fst sl, mk_racc [] [] [] nxt false) with
+            | PStopped w' => UStop w'
+            | PFailed e w' => UFail e w'
+            | PDone sa c' w' =>
+                match ures_res (round_tail rnd sa) with
+                | inr e => UFail e w'
+                | inl s4 =>
+                    if r_prog (snd sa) then unify_rounds interval f (S rnd) s4 (r_next (snd sa)) c' w'
+                    else UDone s4 (r_next (snd sa)) c' w'
+                end
+            end
+        end
+    end.
+
+  Definition unify_polled (interval : N) (fuel : nat) (st : tstate) (w : wdog) : unify_out :=
+    match ures_res (init_forest ds_forest (orders_of mode) st) with
+    | inr e => UFail e w
+    | inl s0 => unify_rounds interval fuel 0 s0 (ts_next st) 0 w
+    end.
+
+  (* ---------------------------------------------------------------------------------------------- abi, layout *)
   (* `forest.get_data(&var)` on the forest `unify` left behind; `state.value(var)` is defined for every variable
      allocated so far (registered values, the mapping rule's and `merge`'s `allocate_ty_var`) *)
   Definition env_of_forest (s : dsu iset) (n : N) : abi_env :=
     mk_env (fun v => if v <? n then match ds_get_data iset s v with Ok (_, d) => d | _ => None end else None)
            (fun v => v <? n).
 
-  (* ---------------------------------------------------------------------------------------------- the whole *)
-  Definition stop_trace (det : bool) (vs ls : option (list sv)) (nv : option N) (r : pipeline_result) : ptrace :=
-    mk_ptrace det vs ls nv None r.
+  (* the loop of TypeChecker::unify over `constant_storage_slots` (the values filtered first, then enumerated):
+     one slot = Abi.build_layout on a one-element list *)
+  Definition is_const_slot (x : tsv) : bool := match const_slot_key x with Some _ => true | None => false end.
+  Definition layout_body (env : abi_env) (fuel : nat) (x : tsv) (layout : list entry) : list entry + pipeline_result :=
+    match build_layout abi_nested_add abi_nested_fit env fuel [x] layout with
+    | Ok l => inl l
+    | Err e => inr (PErrAbi e)
+    | Panic p => inr (PPanic p)
+    end.
 
-  Definition analyze_tc (fu : fuels) (cfg : config) (det : bool) (stored : list (vstate * list (N * N))) (polls0 : N) : ptrace :=
+  (* ---------------------------------------------------------------------------------------------- the whole *)
+  (* the type checker with the watchdog: `TypeChecker::run` on the retired states, `polls0` polls made so far *)
+  Definition analyze_tc (fu : fuels) (cfg : limits) (det : bool) (stored : list (vstate * list (N * N))) (polls0 : N) : ptrace :=
+    let k := poll_every cfg in
     let values := unique (all_values mode stored) in
-    match lift_loop cfg values 0 polls0 [] false with
-    | LStop => stop_trace det (Some values) None None (PErrStopped 1)
-    | LErr => stop_trace det (Some values) None None PErrLift
-    | LPanic s => stop_trace det (Some values) None None (PPanic s)
-    | LOk lifted polls1 =>
-        match polled cfg (length lifted) 0 polls1 with
-        | inl _ => stop_trace det (Some values) (Some lifted) None (PErrStopped 2)
-        | inr polls2 =>
-            let st := snd (assign_vars lifted) in
-            let vals := tc_values (Register.values st) in
-            let stop3 := polled cfg (length vals) 0 polls2 in
-            let inferred := match stop3 with
-                            | inl i => infer_values pipeline_rules (firstn i vals) st
-                            | inr _ => infer_values pipeline_rules vals st
-                            end in
-            match inferred with
-            | Err _ => stop_trace det (Some values) (Some lifted) (Some (next st)) PErrInfer
-            | Panic s => stop_trace det (Some values) (Some lifted) (Some (next st)) (PPanic s)
-            | Ok st' =>
-                match stop3 with
-                | inl _ => stop_trace det (Some values) (Some lifted) (Some (next st)) (PErrStopped 3)
-                | inr _ =>
-                    let tr := mk_ptrace det (Some values) (Some lifted) (Some (next st)) (Some (next st', infs st')) in
-                    match stop_at cfg with
-                    | Some _ => tr PWatchdogBeyondModel
-                    | None =>
-                        match unify (f_rounds fu) (orders_of mode) (tstate_of st') with
-                        | Err URounds => tr PFuelUnify
-                        | Err UFindFuel => tr PFuelFind
-                        | Err UImpossible => tr PModelBug
-                        | Panic s => tr (PPanic s)
-                        | Ok (s, n) =>
-                            match build_layout abi_nested_add abi_nested_fit (env_of_forest s n) (S (N.to_nat n))
-                                    (tc_values (Register.values st' ++ synthetic_values (next st') n)) [] with
-                            | Ok l => tr (PLayout l)
-                            | Err e => tr (PErrAbi e)
-                            | Panic p => tr (PPanic p)
-                            end
-                        end
+    let tr0 := fun ls nv inf w r => mk_ptrace det (Some values) ls nv inf (polls w) r in
+    match ploop_e lift_body k values 0 (mk_wdog polls0 (stop_at cfg)) ([], false) with
+    | PStopped w => tr0 None None None w (PErrStopped 1)
+    | PFailed e w => tr0 None None None w e
+    | PDone (acc, failed) _ w1 =>
+        if failed : bool then tr0 None None None w1 PErrLift else
+        let lifted := rev acc in
+        let tr1 := tr0 (Some lifted) in
+        match ploop_e reg_body k lifted 0 w1 empty_tcs with
+        | PStopped w => tr1 None None w (PErrStopped 2)
+        | PFailed e w => tr1 None None w e
+        | PDone st _ w2 =>
+            let tr2 := tr1 (Some (next st)) in
+            match ploop_e infer_body k (tc_values (Register.values st)) 0 w2 st with
+            | PStopped w => tr2 None w (PErrStopped 3)
+            | PFailed e w => tr2 None w e
+            | PDone st' _ w3 =>
+                let tr3 := tr2 (Some (next st', infs st')) in
+                match unify_polled k (f_rounds fu) (tstate_of st') w3 with
+                | UStop w => tr3 w (PErrStopped 4)
+                | UFail e w => tr3 w e
+                | UDone s n _ w4 =>
+                    match ploop_e (layout_body (env_of_forest s n) (S (N.to_nat n))) k
+                            (filter is_const_slot (tc_values (Register.values st' ++ synthetic_values (next st') n))) 0 w4 [] with
+                    | PStopped w => tr3 w (PErrStopped 5)
+                    | PFailed e w => tr3 w e
+                    | PDone l _ w5 => tr3 w5 (PLayout l)
+                    end
+                end
+            end
+        end
+    end.
+
+  (* the same without a watchdog: every loop is the plain fold of its body *)
+  Definition analyze_plain (fu : fuels) (stored : list (vstate * list (N * N))) : pipeline_result :=
+    let values := unique (all_values mode stored) in
+    match fold_e lift_body values ([], false) with
+    | inr e => e
+    | inl (acc, failed) =>
+        if failed : bool then PErrLift else
+        match fold_e reg_body (rev acc) empty_tcs with
+        | inr e => e
+        | inl st =>
+            match fold_e infer_body (tc_values (Register.values st)) st with
+            | inr e => e
+            | inl st' =>
+                match ures_res (unify (f_rounds fu) (orders_of mode) (tstate_of st')) with
+                | inr e => e
+                | inl (s, n) =>
+                    match fold_e (layout_body (env_of_forest s n) (S (N.to_nat n)))
+                            (filter is_const_slot (tc_values (Register.values st' ++ synthetic_values (next st') n))) [] with
+                    | inr e => e
+                    | inl l => PLayout l
                     end
                 end
             end
@@ -397,7 +506,7 @@ Section Analyze.
 
   Definition analyze_trace (fu : fuels) (bytes : list byte) (cfg : config) : ptrace :=
     match vm_phase_of fu bytes cfg with
-    | VmFail r => no_trace r
+    | VmFail r polls => no_trace polls r
     | VmOk stored polls => analyze_tc fu cfg (order_determined stored) stored polls
     end.
 
